@@ -52,6 +52,20 @@ def disk_map():
     return pts, quads
 
 
+def star_map(n=5):
+    """n quads around one interior point (valence n: more than a quad has sides when n = 5, 6)"""
+    import math
+    pts = [(0.0, 0.0, 0.0)]
+    for i in range(n):
+        a = 2 * math.pi * i / n
+        pts.append((round(math.cos(a), 3), round(math.sin(a), 3), 0.0))               # spokes 1..n
+    for i in range(n):
+        a = 2 * math.pi * (i + 0.5) / n
+        pts.append((round(1.6 * math.cos(a), 3), round(1.6 * math.sin(a), 3), 0.0))   # corners n+1..2n
+    quads = [[0, 1 + i, 1 + n + i, 1 + (i + 1) % n] for i in range(n)]
+    return pts, quads
+
+
 MAPS = {
     "2x2": lambda: grid_quads(2, 2),
     "3x3": lambda: grid_quads(3, 3),
@@ -59,6 +73,8 @@ MAPS = {
     "L": lambda: grid_quads(3, 3, skip=((2, 2), (1, 2), (2, 1))),
     "L-wide": lambda: grid_quads(3, 3, skip=((2, 2),)),
     "disk": disk_map,
+    "star5": lambda: star_map(5),
+    "star6": lambda: star_map(6),
 }
 
 
